@@ -175,6 +175,10 @@ func vGhostPoolMode(mode int)        {}
 func vGhostExplore(preempt int)      {}
 func vGhostExploreOff()              {}
 
+// vGhostExploreAtomics(preempt): exploration mode with scheduling points only before and after sync/atomic operations
+// (and where goroutines block): the windows of check-then-act code around an atomic flag, at a fraction of the schedules.
+func vGhostExploreAtomics(preempt int) {}
+
 // vGhostTimeSlip(ns): in exploration mode a timer that is due within ns may fire at any scheduling point.
 func vGhostTimeSlip(ns int64) {}
 // vGhostFmtDigits(true): the engine forks on the digit count of symbolic integers rendered by fmt (exact text lengths).
